@@ -79,7 +79,9 @@ def batches(ctx):
 
     def oracle_ord(c, r):
         if "error" in r:
-            return True, "outside the domain"
+            if all(l["syn"] for _, l in R.otree_leaves(c["O"])):
+                return False, f"the root orders could not be computed on a well-formed input ({r['error']})"
+            return True, "empty leaf synteny: outside the domain"
         for k in ("ext", "base"):
             if r.get(k) is None:
                 return False, f"{k} raised {r.get(k + '_error')}"
